@@ -142,6 +142,10 @@ _glue = [
          entry=['DLISWriter.write_logical_records', 'LogicalRecordBytes.make_segments', 'BufferedOutput.add_bytes']),
     dict(fn=H + 'c10.reach_glue', kind='reach', timeout=(120, 120), validate=IO + 'replay_glue'),
     dict(fn=H + 'c10.wit_glue_multi', kind='witness', timeout=(120, 120), validate=IO + 'replay_glue'),
+    dict(fn=H + 'c10.ob_glue_float', kind='universal', timeout=(500, 1200), replay=IO + 'replay_glue',
+         bounds='chunk size a float with zero decimal part (64.0, 1048576.0: with and without intermediate flushes); vrl in 20..48 step 4 (thorough: step 2), one per shard; L1<=vrl+12, L2 as ob_glue', shards=(8, 15),
+         entry=['DLISWriter.write_logical_records', 'DLISWriter._check_output_chunk_size', 'BufferedOutput.__init__', 'BufferedOutput.pass_bytes_to_writer']),
+    dict(fn=H + 'c10.reach_glue_float', kind='reach', timeout=(120, 120), validate=IO + 'replay_glue'),
 ]
 _buffer = [
     dict(fn=H + 'c10.ob_buffer_step', kind='universal', timeout=(120, 300), replay=IO + 'replay_buffer_step',
